@@ -124,17 +124,20 @@ def r1(repo, res):
         f = repo.func(ref)
         res.analysed(f)
         if role == "return":
-            env = atom_env(f)
-            env["self.minor"] = "1.001"
-            ev = Evaluator(env)
+            F = {b for b in UNIVERSE if b[0]}
+            N = {b for b in UNIVERSE if b[1]}
+            me = Obj(gene=Obj(alleles={"M": Obj(func_muts=set(F), minors={"m": Obj(neutral_muts=set(N))})}), major="M", minor="m",
+                     added=sorted(b for b in UNIVERSE if b[2]), missing=sorted(b for b in UNIVERSE if b[3]))
             try:
-                kind, val = ev.run([s for s in f.body if not (isinstance(s, ast.Expr) and isinstance(s.value, ast.Constant))])
+                kind, val = Evaluator({"self": me}).run([s for s in f.body if not (isinstance(s, ast.Expr) and isinstance(s.value, ast.Constant))])
             except Unfoldable as e:
                 res.err("C12.R1", f"{ref} is outside the folding language: {e}")
                 continue
             got = frozenset(val) if kind == "return" and val is not None else frozenset()
+            untouched = me.gene.alleles["M"].func_muts == F and me.gene.alleles["M"].minors["m"].neutral_muts == N
             n_sites += 1
-            res.ob("C12.R1", f, f, got == SPEC, expected="core|minor|added - lost", found=describe(got),
+            res.ob("C12.R1", f, f, got == SPEC and untouched, expected="core|minor|added - lost (catalogue sets left untouched)",
+                   found=describe(got) + ("" if untouched else "; the allele definition was modified"),
                    clause="exactly the variants that copy is reported to carry (definition plus additions minus losses)",
                    key="carried-set:return")
             continue
